@@ -89,17 +89,17 @@ Lemma update_obs_spec c h ts b now pend h' p' cl :
   /\ m_opened (h_mux h') = m_opened (h_mux h) || b
   /\ (cl = true -> m_opened (h_mux h) || b = true).
 Proof.
-  unfold update_fragment_obs, upd_called. destruct (m_opened (h_mux h)) eqn:Ho.
+  unfold update_fragment_obs, upd_called. cbv zeta. destruct (m_opened (h_mux h)) eqn:Ho.
   - set (fslot := slot c (h_mux h) (m_nfrags (h_mux h))).
     destruct (force_split c (h_mux h) ts).
     + destruct (reopen_obs c h ts true true now pend) as [[h1 p1] c1] eqn:E1.
       destruct (reopen_obs_spec _ _ _ _ _ _ _ _ _ _ E1) as (-> & -> & X1 & O1).
-      set (h2 := with_mux h1 (upd_dur (h_mux h1) fslot ts)).
+      set (h2 := with_mux h1 (h_mux h1)).
       assert (X2 : extends h h2 (map ev_bytes pend)).
       { destruct X1 as (n & En & Fn). exists n. now split. }
       assert (O2 : m_opened (h_mux h2) = true).
-      { unfold h2. cbn [with_mux h_mux]. rewrite upd_dur_opened, O1. now rewrite orb_true_r. }
-      change (h_mux h2) with (upd_dur (h_mux h1) fslot ts).
+      { unfold h2. cbn [with_mux h_mux]. rewrite O1. now rewrite orb_true_r. }
+      change (h_mux h2) with (h_mux h1).
       destruct (f_ltb _ _).
       * intros H. injection H as <- <- <-.
         split; [reflexivity|]. split; [reflexivity|]. split; [exact X2|]. split; [exact O2|reflexivity].
